@@ -48,6 +48,7 @@ SPECS = {
         "section": [("m1", "Q -> Q -> Q"), ("pinf", "Q"), ("err", "Q")],
         "funcs": [
             {"py": "LevyTriplet.set_representation", "coq": "set_representation", "emitter": "py2coq_c04:emit_set_representation",
+             "defaults_of": {"LevyTriplet.__init__": {"a": "0", "representation": "LevyRepresentation.ONEONE"}},
              "param": "representation", "enum": _REP, "enum_values": {"ZERO": 1, "CENTER": 2, "ONEONE": 3, "TILDE": 4},
              "mapping_attr": "self._drift_mapping", "on_raise": "err",
              "methods": {"self.canonical_drift": "canonical_drift m1 pinf err", "self.zero_drift": "zero_drift m1 pinf err",
